@@ -278,6 +278,16 @@ func (c *concretiser) rule(r ARule) ARule {
 		out.Tmpl.Segs = append(out.Tmpl.Segs, c.elem(e))
 	}
 	if r.Tmpl.Verb != "" {
+		// a verb is a LITERAL like any other: it may begin with a digit, '_', '-' or '.'
+		if _, ok := c.m[r.Tmpl.Verb]; !ok && c.r.Intn(5) == 0 {
+			for _, v := range []string{"2fa", "_search", "-x", ".hidden", "9", "0day"} {
+				if !c.used[v] && c.r.Intn(3) == 0 {
+					c.used[v] = true
+					c.m[r.Tmpl.Verb] = v
+					break
+				}
+			}
+		}
 		out.Tmpl.Verb = c.seg(r.Tmpl.Verb)
 	}
 	return out
